@@ -57,6 +57,7 @@ RULE = ("five sub-streams, one per algorithm, each from the generator of the own
         "reached one of lines 4, 6, 9, 10; ID* / IDC* answered with a proper estimand (not One / Zero) for an event with "
         "at least one counterfactual world on a graph with an edge.")
 ASSUMPTIONS = [
+    "ID / IDC sources: each query is run in the argument form recorded for the case by C01 / C03 (harness/forms.py, id_run.id_slots: X / Y / Z as every collection type, one-shot iterable or bare Variable; Identification(..) / from_parts / from_expression / identify_outcomes positional or keyword; every public graph constructor), tagged form_*; the TRSO and ID* / IDC* sources belong to other modules and are driven in their single historical form here",
     "ID / IDC: theorems id_vocab, identifyOutcomes_vocab, idc_vocab (Props/C06Id.lean) are invariants of the recursion of "
     "the Lean models; they assume only that topological_sort lists nodes of the graph (TopoNodes)",
     "TRSO: theorem trso_vocab (Props/C06Transport.lean) proves for the model: every leaf is tagged, target leaves are plain, "
@@ -340,7 +341,8 @@ def _idc_cases(rng, tier):
 
 
 def _id_run(case):
-    return R.run_identify(case["g"], case["X"], case["Y"])
+    # the C01 run: every argument in the form recorded for the case (harness/forms.py, id_run.id_slots)
+    return c01._run_memo(case)
 
 
 def _idc_run(case):
@@ -365,6 +367,7 @@ def _std_py(name, run):
         out = [r["out"][0], verdict] if r["out"][0] == "ok" else r["out"]
         tags = {"source": name, "outcome": "ok" if r["exc"] is None else r["exc"], "n_nodes": len(G.all_nodes(case["g"]))}
         tags.update(R.line_tags(r["lines"]))
+        tags.update(R.id_form_tags(case, (c01 if name == "id" else c03)._forms(case)))
         nontrivial = r["exc"] is None and any(k in r["lines"] for k in "4567")
         return {"out": out, "fail": fail, "nontrivial": nontrivial, "tags": tags}
     return py
